@@ -835,7 +835,7 @@ class Builtins:
                     return z3.Not(v.is_slice)
             if isinstance(v, VRef):
                 h = st.heap[v.oid]
-                chain = self.interp.mro(h.cls) if h.cls else [h.kind]
+                chain = self.interp.mro(h.cls) if h.cls else [h.meta.get("pytype", h.kind)]
                 return z3.BoolVal(name in chain or name == "object")
             if isinstance(v, VExc) and v.cname is not None:
                 return z3.BoolVal(exc_isa(v.cname, name))
